@@ -69,8 +69,9 @@ Undef == Labs \ defd
 Jcc == {"JMP", "JE", "JNE", "JC", "JNC", "JB", "JAE", "JZ", "JNZ", "JA", "JBE", "CALL"}
 
 \* one random statement, kind chosen first (weights by repetition)
-Kinds == IF Flavor = "pic" THEN {"ins", "ins2", "ins3", "data"}
-         ELSE {"ins", "ins2", "ins3", "ins4", "data", "data2", "label", "label2", "br", "br2", "br3", "lref", "lref2", "dref", "dref2", "equuse", "equuse2", "align", "dir"}
+FarPool == {[k |-> "far", mn |-> "JMP", seg |-> sg, off |-> o, offnm |-> "", kw |-> kw, sty |-> "h"] : sg \in {8, 16}, o \in {27, 74565}, kw \in {"", "DWORD"}}
+Kinds == IF Flavor = "pic" THEN {"ins", "ins2", "ins3", "data", "far"}
+         ELSE {"ins", "ins2", "ins3", "ins4", "data", "data2", "label", "label2", "br", "br2", "br3", "lref", "lref2", "dref", "dref2", "equuse", "equuse2", "align", "dir", "far"}
 PickOf(kind) ==
   CASE kind \in {"ins", "ins2", "ins3", "ins4"} -> RandomElement(InsPool)
     [] kind \in {"data", "data2"} -> RandomElement(DataPool)
@@ -88,6 +89,7 @@ PickOf(kind) ==
                                       [k |-> "cfg", mn |-> "SECTION", s |-> ".bss"], [k |-> "cfg", mn |-> "INSTRSET", s |-> "\"i486p\""],
                                       [k |-> "cfg", mn |-> "OPTIMIZE", s |-> "1"], [k |-> "cfg", mn |-> "PADDING", s |-> "1"],
                                       [k |-> "bits", v |-> Bits]})
+    [] kind = "far" -> RandomElement(FarPool)          \* far jump with a numeric pointer (7 bytes in 32-bit code, 8 with 66h in 16-bit code)
     [] kind = "align" -> [k |-> "alignb", v |-> RandomElement({2, 4, 16})]
 Pick == CHOOSE s \in {PickOf(k) : k \in {RandomElement(Kinds)}} : TRUE
 
